@@ -79,6 +79,11 @@ static inline int sqlite3_prepare_v2(struct sqlite3 *db, const char *sql, int n,
   g_prepares++; g_prepared_sql = sql; if (!g_api_ok) return 1; *out = &g_adhoc_stmt; return 0; }
 static inline int sqlite3_finalize(struct sqlite3_stmt *s) { g_finalizes++; return 0; }
 static inline int sqlite3_column_count(struct sqlite3_stmt *s) { return 1; }
+/* pure queries of the connection state: any answer */
+int nondet_int(void);
+static inline int sqlite3_get_autocommit(struct sqlite3 *db) { return nondet_int(); }
+static inline int sqlite3_changes(struct sqlite3 *db) { return nondet_int(); }
+static inline int sqlite3_total_changes(struct sqlite3 *db) { return nondet_int(); }
 static inline int sqlite3_exec(struct sqlite3 *db, const char *sql, void *cb, void *arg, char **err) {
   __CPROVER_assert(db != 0, "[P:C03,P:C04] statements are executed on an open connection");
   g_execs++; g_exec_sql = sql; return g_exec_ok ? 0 : 5; }
